@@ -42,9 +42,12 @@ CLAIMS = {
  "C13": dict(cat="proof", tech="machine-checked proof in Coq (affine composition) + node-for-node correspondence of the import model (frames, affine rows) + substitution-semantics oracle",
    text="Kernel-checked over the reals: the flattened matrix of consecutive affine remaps acts as the factors applied in order (later remap first on the coordinates). Context::import with RemapAxes / RemapAffine is modelled as a recursive substitution (Ctx.import_rec) and equals the implementation node-for-node on random nested remaps; values are compared with the substitution semantics evaluated directly on the tree.",
    ref="DESIGN.md §5 C13", note="The import-as-substitution theorem over the Context model is being proved (CtxProof)."),
- "C16": dict(cat="proof", tech="machine-checked proof in Coq (named planes / revolve axis from regenerated tables; geometry theorems over R in progress) + node-for-node correspondence of every shape builder + closed-form geometry oracle",
-   text="Every From<_> for Tree body of fidget-shapes is a Gallina tree builder generic in the scalar type; the f32 instance imported into the Context model equals Tree::from(shape) imported into a Context node-for-node for all 26 shapes and named planes on random parameters (including nalgebra's f32 affine products). Named-plane axes and RevolveY's radius plane are regenerated from the source and proved to be the documented ones. The oracle compares every shape with closed-form f64 geometry at 24 points per case.",
-   ref="DESIGN.md §5 C16", note="Geometry theorems over the reals (inside <-> negative, T(s)(p) = s(T^-1 p)) are being proved (ShapesSound)."),
+ "C16": dict(cat="proof", tech="machine-checked proof in Coq (named planes / revolve axis from regenerated tables; 35 geometry theorems over the reals for every builder) + node-for-node correspondence of every shape builder + closed-form geometry oracle",
+   text="Every From<_> for Tree body of fidget-shapes is a Gallina tree builder generic in the scalar type; the f32 instance imported into the Context model equals Tree::from(shape) imported into a Context node-for-node for all 26 shapes and named planes on random parameters (including nalgebra's f32 affine products). Named-plane axes and RevolveY's radius plane are regenerated from the source and proved to be the documented ones. Kernel-checked over the reals (ShapesSound): inside <-> negative for circle/sphere/rectangle/box/plane, set algebra for union/intersection/inverse/difference, blend contains the union and equals it at radius 0, den(T(s))(p) = den(s)(T^-1 p) for move/scale/rotate (Rodrigues)/reflect*/revolve/extrude/loft/repeat. The oracle compares every shape with closed-form f64 geometry at 24 points per case.",
+   ref="DESIGN.md §5 C16", note="The real-number theorems are about the same generic builders whose f32 instance is compared with the implementation."),
+ "C18": dict(cat="proof", tech="machine-checked proof in Coq over the reals of the view model (zoom fixes the cursor point, pan tracks the grab, flags, ranges, for every event sequence) + bit-exact replay of the f32 instance of the same model against Canvas2 / Canvas3 on random event sequences + property oracle on the implementation",
+   text="fidget-gui's View2/View3, handles, Canvas2/Canvas3 and RegionSize::screen_to_world are one Gallina model over an abstract number structure. Kernel-checked at the reals: world_to_model is translation*rotation*scale; zoom keeps the model point under the cursor for any amount / scale / yaw / pitch; a pan drag keeps the grabbed model point under the cursor across any zoom-free event sequence (and a zoom during a drag provably breaks that: drag2_after_zoom_refuted); rotation leaves centre and scale alone, pitch in [0,pi], |yaw| < 2pi along every run; every returned flag is false exactly when the view is unchanged, for every event and every run. The f32 (Flocq) instance of the same definitions replays random event sequences and must equal the implementation's view and flags bit for bit after every event.",
+   ref="DESIGN.md §5 C18", note="After a rotation the centre is compared only through the oracle (nalgebra's matrix products round differently); infinite / NaN views are outside the tie."),
  "C19": dict(cat="proof", tech="machine-checked proof in Coq of the solver's bookkeeping (seed packing, result keys, fixpoint) + seed-table correspondence through a hook + solution oracle on both backends",
    text="Kernel-checked: column gi of the Jacobian reads lane gi mod 3 of sample gi / 3, which carries the unit seed of free variable gi and of no other (any number of unknowns); solve returns a value for exactly the free parameters; when every residual is exactly zero the start is returned unchanged. The seed rows left in the gradient input array and the Jacobian are observed through a cfg(fidget_verif) hook and compared with the model / the coefficient matrix; solutions, key sets, fixed parameters, satisfied starts and backend agreement are checked on random consistent systems.",
    ref="DESIGN.md §5 C19", note="Partial: convergence of the numerical core is tested, not proved."),
